@@ -141,7 +141,8 @@ class Typer:
             if i == 0 and f.cls is not None and not is_static and p in (a.posonlyargs + a.args):
                 env[p.arg] = ("type", f.cls.qualname) if is_cm else cls(f.cls.qualname)
             else:
-                env[p.arg] = self.ann(f.module, p.annotation)
+                t = self.ann(f.module, p.annotation)
+                env[p.arg] = cls(f.cls.qualname) if t == ("self",) and f.cls is not None else t
         if a.vararg:
             env[a.vararg.arg] = ("list", self.ann(f.module, a.vararg.annotation))
         if a.kwarg:
@@ -149,7 +150,8 @@ class Typer:
         for _ in range(3):
             for n in iter_own_nodes(f.node):
                 if isinstance(n, ast.AnnAssign) and isinstance(n.target, ast.Name):
-                    env[n.target.id] = self.ann(f.module, n.annotation)
+                    t = self.ann(f.module, n.annotation)
+                    env[n.target.id] = cls(f.cls.qualname) if t == ("self",) and f.cls is not None else t
                 elif isinstance(n, ast.Assign):
                     t = self.expr(f, n.value, env)
                     for tg in n.targets:
